@@ -32,6 +32,13 @@ Definition C05_ifib_full : Prop := forall cmp, TotalOrder cmp -> simulates cmp I
 Theorem C05_ibin_simulates : C05_ibin_full.
 Proof. exact ibin_simulates. Qed.
 
+(** Indexed binomial heap: the full statement.  Invariants behind it
+    (Algo.C05.ProofsBinom.InvB): the entries of the forest are exactly the held entries of
+    the map (each index once), nodes[i] is set iff index i is held, n = number of held indices,
+    heap order; promote/demote/bubble-to-root move contents along a path and restore the order. *)
+Theorem C05_ibinom_simulates : C05_ibinom_full.
+Proof. exact ibinom_simulates. Qed.
+
 (** Out-of-range indices are rejected with a false result rather than a crash, in every state
     of every implementation (reachable or not), leaving the state unchanged. *)
 Theorem C05_out_of_range_rejected :
@@ -56,4 +63,5 @@ Example C05_example :
 Proof. vm_compute. reflexivity. Qed.
 
 Print Assumptions C05_ibin_simulates.
+Print Assumptions C05_ibinom_simulates.
 Print Assumptions C05_out_of_range_rejected.
